@@ -45,7 +45,12 @@ def gen(rng):
     # d coefficients on some maps of the chain molecule
     s.ds = []
     for (t, ws) in s.m_beads:
-        s.ds.append([rng.choice([1, 0.5, 2, 0, 0.25]) for _ in ws] if rng.random() < 0.3 else None)
+        ds = None
+        if rng.random() < 0.3:
+            ds = [rng.choice([1, 0.5, 2, 0, 0.25]) for _ in ws]
+            while sum(ds) == 0:          # the property quantifies over d vectors with non-zero sum (the loader normalises them)
+                ds = [rng.choice([1, 0.5, 2, 0, 0.25]) for _ in ws]
+        s.ds.append(ds)
     # a zero weight now and then (with at least one non-zero weight left)
     for (t, ws) in s.m_beads:
         if len(ws) >= 2 and rng.random() < 0.15:
